@@ -5,7 +5,7 @@ namespace AsynqModel.Drv.Generator
 open AsynqModel AsynqModel.Generator
 
 def step? : Sexp → Option Step
-  | .atom "a" => some .await
+  | .list [.atom "a", b] => b.bool?.map .await
   | .list [.atom "v", n] => n.nat?.map .value
   | _ => none
 
@@ -14,7 +14,14 @@ def header? : List Sexp → Option (Body × Nat)
   | [.list (.atom "body" :: steps), .list [.atom "nest", k]] => do some ((← steps.mapM step?), (← k.nat?))
   | _ => none
 
+def adv? : Sexp → Option Adv
+  | .list [.atom "next"] => some .next
+  | .list [.atom "take", n] => n.nat?.map .take
+  | .list [.atom "list"] => some .list
+  | _ => none
+
 def op? : Sexp → Option Op
+  | .list [.atom "par", k, a] => do some (.par (← k.nat?) (← adv? a))
   | .list [.atom "next"] => some .next
   | .list [.atom "compute", k] => k.nat?.map .compute
   | .list [.atom "take", n] => n.nat?.map .take
@@ -35,9 +42,15 @@ def res? : Sexp → Option Res
   | .list (.atom "raised" :: _) => some (.raised .other)
   | _ => none
 
+def sib? : Sexp → Option (Option (Bool × Res))
+  | .atom "-" => some none
+  | .list [.atom "sib", d, r] => do some (some ((← d.bool?), (← res? r)))
+  | _ => none
+
 def obs? : Sexp → Option Obs
-  | .list [.atom "obs", op, r, pos, fin, bad] => do
-    some { op := (← op? op), res := (← res? r), pos := (← pos.nat?), fin := (← fin.bool?), bad := (← bad.nat?) }
+  | .list [.atom "obs", op, r, sib, pos, fin, bad] => do
+    some { op := (← op? op), res := (← res? r), sib := (← sib? sib), pos := (← pos.nat?), fin := (← fin.bool?),
+           bad := (← bad.nat?) }
   | _ => none
 
 def firstDiff (a b : List Obs) (i : Nat := 0) : Option (Nat × String) :=
